@@ -1,7 +1,8 @@
 """C11 - table files mean what they say: block selection, conditions and arguments.
 
 Models: coq/Model/Cond.v (VersionParser), Blocks.v (Table._read / Table.actions), Args.v (argument
-splitting, command normalisation), Legacy.v (Table._rewrite).   Theorems: coq/Props/C11.v
+splitting, command normalisation), Legacy.v (Table._rewrite), LegacySpec.v (the legacy grammar as an AST, its printer,
+the corresponding if blocks).   Theorems: coq/Props/C11.v
 Implementation: eups.table.Table(file, topProduct=stub, addDefaultProduct=False).actions(flavor, types)
 and eups.VersionParser.VersionParser(text).eval().
 
@@ -9,6 +10,9 @@ Streams:
   table      items ASTs of the documented grammar with a random layout, printed to real files; model and
              implementation compared on [(cmd, args, extra)]; the ORACLE (denotation of the AST, computed
              here independently) is evaluated on the implementation's output
+  legacy     files of the whole old grammar (Group:/Common:/End:, Flavor=, Qualifiers=, Action=, File=, Product=, blank and
+             comment lines in every slot the rewriter's state machine has); ORACLE: a group applies iff the flavor is
+             listed, ignorable lines mean nothing; model and implementation compared as for tables
   malformed  mutated tables (stray braces, bad arity, unknown commands, legacy lines, odd spellings):
              accept/raise and, when both accept, the actions and the parsed block structure are compared
   cond       token soups through VersionParser.eval: the python value is compared
@@ -360,22 +364,402 @@ def canonical_layout(items):
     return out
 
 
-# ---- legacy groups
+# ---- legacy files: every line kind Table._rewrite recognises, in every position its state machine allows
+#
+# The grammar (what a legacy table file is, independently of the rewriter):
+#   file      := top* newgroup* ign*
+#   top       := ign* (command | if-chain | oldgroup)
+#   oldgroup  := "Group:" (ign* "Flavor = F")+ ign* "Common:" (ign* command)* ign* "End:"
+#   newgroup  := (ign* "Flavor = F")+ (ign* command)+            up to the next Flavor= line or the end of the file
+#   ign       := blank / comment | "Action = setup" | "Qualifiers = \"\"" | "File = Table"
+#              | "Product = P"  (once a File= line has been seen)
+# with any letter case of the key words, any blanks around = and a trailing comment.  The lines called ign carry
+# no meaning (the documentation of the old format: they "are always the same"); a group applies exactly when the
+# flavor is one of those its Flavor= lines list (old form: Flavor = ANY lists every flavor).
+# An if-chain cannot stand inside a group (blocks do not nest), so chains and old groups come before the first
+# new-style group, whose body runs to the next Flavor= line.
+
+LEG_FLAVORS = FLAVORS + ["Darwin", "Linux+2", "sun4.x"]
+
+
+def g_ign(rng, st, classic=None):
+    """one ignorable line; st["old"] says whether a File= line has been printed before"""
+    ind = rng.choice(["", "", "  ", "   ", "\t"])
+    aft = g_after(rng, 0.15)
+    r = rng.random()
+    if classic is not None:
+        return ind + classic
+    if r < 0.33:
+        core = rng.choice(['Qualifiers = ""', 'Qualifiers=""', 'QUALIFIERS = ""', 'qualifiers  =  ""', 'Qualifiers =""'])
+    elif r < 0.63:
+        core = rng.choice(["Action = setup", "Action=setup", "ACTION = SETUP", "action =Setup", "Action= setup"])
+    elif r < 0.73:
+        core = rng.choice(["File = Table", "FILE=TABLE", "file = table", "File=Table"])
+        st["old"] = True
+    elif r < 0.83 and st["old"]:
+        core = rng.choice(["Product = foo", "PRODUCT=foo", "product = foo", "Product =bar_2"])
+    else:
+        return rng.choice(["", "   ", "# comment", "   # Flavor = Linux", "\t", "# Common:"])
+    return ind + core + aft
+
+
+def g_igns(rng, st, p, classic=None):
+    out = []
+    if classic is not None:
+        return [g_ign(rng, st, classic)]
+    while rng.random() < p:
+        out.append(g_ign(rng, st))
+    return out
+
+
+def g_kw(rng, word):
+    return (rng.choice(["", "", "  ", "\t"]) + rng.choice([word, word, word.upper(), word.lower(), g_case(rng, word)]) +
+            g_after(rng, 0.15))
+
+
+def g_flavor_line(rng, f):
+    return (rng.choice(["", "", "  ", "\t"]) +
+            rng.choice(["Flavor=%s", "Flavor = %s", "FLAVOR=%s", "flavor =%s", "Flavor= %s", "FLAVOR  =  %s"]) % f +
+            g_after(rng, 0.15))
+
+
+def g_plain_cmd(rng):
+    """a command whose own layout carries no junk line (the slots of the legacy grammar provide those)"""
+    c = g_cmd(rng)
+    c["lay"]["junk"] = []
+    return c
+
 
 def g_legacy(rng):
-    style = rng.choice(["new", "old"])
-    pre = [g_cmd(rng) for _ in range(rng.choice([0, 0, 1, 2]))]
-    groups = []
-    for _ in range(rng.choice([1, 1, 2, 3])):
-        fs = rng.sample(FLAVORS, rng.choice([1, 1, 2, 3]))
-        groups.append({"flavors": fs, "spell": [rng.choice(["Flavor=%s", "Flavor = %s", "FLAVOR=%s", "flavor =%s", "  Flavor= %s"]) % f
-                                                for f in fs],
-                       "body": [g_cmd(rng) for _ in range(rng.choice([1, 1, 2, 3]))],
-                       "between": [g_cmd(rng) for _ in range(rng.choice([0, 0, 1]))] if style == "old" else []})
-    return {"style": style, "pre": pre, "groups": groups}
+    st = {"old": False}
+    classic = rng.random() < 0.25        # the customary layout: Qualifiers = "" after every Flavor=, Action = setup
+    p = rng.choice([0.0, 0.25, 0.45])    # how often an ignorable line is put into a slot
+    mode = rng.choice(["new", "new", "old", "mixed", "mixed"])
+    header = rng.random() < 0.35
+    top, groups = [], []
+    first_pre = []
+    if header:
+        first_pre = [rng.choice(["File = Table", "FILE = Table", "File=table"])]
+        st["old"] = True
+        if rng.random() < 0.7:
+            first_pre.append(rng.choice(["Product = foo", "PRODUCT=foo", "  Product = foo # the name"]))
+
+    def flavors(n, old_form):
+        names = rng.sample(LEG_FLAVORS, n)
+        if old_form and rng.random() < 0.06:
+            names[rng.randrange(n)] = rng.choice(["ANY", "any", "Any"])
+        out = []
+        for k, f in enumerate(names):
+            # slot before a Flavor= line: for k > 0 it lies between two Flavor= lines of one group
+            if classic and k > 0:
+                pre = g_igns(rng, st, p, 'Qualifiers = ""')
+            else:
+                pre = g_igns(rng, st, p)
+            out.append({"pre": pre, "spell": g_flavor_line(rng, f), "name": f})
+        return out
+
+    def body(nmin):
+        out = []
+        for k in range(rng.choice([nmin, 1, 1, 2, 3])):
+            if classic and k == 0:
+                pre = g_igns(rng, st, p, 'Qualifiers = ""') + g_igns(rng, st, p, "Action = setup")
+            else:
+                pre = g_igns(rng, st, p)
+            out.append({"pre": pre, "cmd": g_plain_cmd(rng)})
+        return out
+
+    ntop = rng.choice([0, 1, 2]) if mode == "new" else rng.choice([1, 2, 3, 4])
+    for _ in range(ntop):
+        r = rng.random()
+        pre = g_igns(rng, st, p)
+        if mode == "new" or r < 0.35:
+            top.append({"k": "cmd", "pre": pre, "cmd": g_plain_cmd(rng)})
+        elif r < 0.5:
+            it = [i for i in g_items(rng) if i[0] == "chain"][:1]
+            if it:
+                top.append({"k": "chain", "pre": pre, "item": it[0]})
+            else:
+                top.append({"k": "cmd", "pre": pre, "cmd": g_plain_cmd(rng)})
+        else:
+            g = {"k": "old", "pre": pre, "group": g_kw(rng, "Group:")}
+            g["flavors"] = flavors(rng.choice([1, 2, 2, 3]), True)
+            g["pre_common"] = g_igns(rng, st, p, 'Qualifiers = ""' if classic else None)
+            g["common"] = g_kw(rng, "Common:")
+            g["body"] = body(0)
+            g["pre_end"] = g_igns(rng, st, p)
+            g["end"] = g_kw(rng, "End:")
+            top.append(g)
+    if mode != "old":
+        for _ in range(rng.choice([1, 1, 2, 3])):
+            g = {"flavors": flavors(rng.choice([1, 2, 2, 3]), False)}
+            g["body"] = body(1)
+            groups.append(g)
+    tail = g_igns(rng, st, p)
+    a = {"v": 2, "top": top, "groups": groups, "tail": tail}
+    slots = leg_first_slot(a)
+    slots[0:0] = first_pre
+    return a
+
+
+def leg_first_slot(a):
+    """the list of ignorable lines that is printed first"""
+    if a["top"]:
+        return a["top"][0]["pre"]
+    if a["groups"]:
+        return a["groups"][0]["flavors"][0]["pre"]
+    return a["tail"]
 
 
 def pr_legacy(a):
+    if "style" in a:
+        return pr_legacy_v1(a)
+    L = []
+
+    def cmdl(c):
+        return c["lay"]["junk"] + [pr_cmd(c)]
+    for e in a["top"]:
+        L += e["pre"]
+        if e["k"] == "cmd":
+            L += cmdl(e["cmd"])
+        elif e["k"] == "chain":
+            L += pr_items([e["item"]]).split("\n")[:-1]
+        else:
+            L.append(e["group"])
+            for f in e["flavors"]:
+                L += f["pre"] + [f["spell"]]
+            L += e["pre_common"] + [e["common"]]
+            for b in e["body"]:
+                L += b["pre"] + cmdl(b["cmd"])
+            L += e["pre_end"] + [e["end"]]
+    for g in a["groups"]:
+        for f in g["flavors"]:
+            L += f["pre"] + [f["spell"]]
+        for b in g["body"]:
+            L += b["pre"] + cmdl(b["cmd"])
+    L += a["tail"]
+    return "\n".join(L) + "\n"
+
+
+def den_legacy(a, fl, ty):
+    """unconditional commands and chains as in any table; a group applies exactly when the flavor is one of those it
+    lists (old form: or it lists ANY); the ignorable lines mean nothing"""
+    if "style" in a:
+        return den_legacy_v1(a, fl, ty)
+    out = []
+    for e in a["top"]:
+        if e["k"] == "cmd":
+            out.append(den_cmd(e["cmd"]))
+        elif e["k"] == "chain":
+            out += den_items([e["item"]], fl, ty)
+        else:
+            names = [f["name"] for f in e["flavors"]]
+            if fl in names or any(n.lower() == "any" for n in names):
+                out += [den_cmd(b["cmd"]) for b in e["body"]]
+    for g in a["groups"]:
+        if fl in [f["name"] for f in g["flavors"]]:
+            out += [den_cmd(b["cmd"]) for b in g["body"]]
+    return out
+
+
+def leg_envs(a):
+    """every flavor mentioned and one that is not, with and without a setup type"""
+    fls = []
+    for g in [e for e in a.get("top", []) if e["k"] == "old"] + a.get("groups", []):
+        fls += [f["name"] for f in g["flavors"] if f["name"].lower() != "any"]
+    for e in a.get("top", []):
+        if e["k"] == "chain":
+            fls += FLAVORS
+    fls = sorted(set(fls)) + [OTHER_FLAVOR]
+    return [[f, t] for k, f in enumerate(fls) for t in (([], ["build"]) if len(fls) <= 4 else ([[], ["build"]][k % 2],))]
+
+
+def leg_shape(a):
+    """histogram key: which group forms occur and where ignorable / archaic lines stand"""
+    if "style" in a:
+        return "legacy/v1/%s/groups=%d" % (a["style"], len(a["groups"]))
+    olds = [e for e in a["top"] if e["k"] == "old"]
+    tags = set()
+
+    def kinds(pre, where):
+        for l in pre:
+            t = l.strip().lower()
+            if not t or t.startswith("#"):
+                continue
+            tags.add(t.split("=")[0].strip()[:4] + "@" + where)
+    for e in a["top"]:
+        kinds(e["pre"], "top")
+        if e["k"] == "old":
+            for k, f in enumerate(e["flavors"]):
+                kinds(f["pre"], "Group" if k == 0 else "Group-flavors")
+                if f["name"].lower() == "any":
+                    tags.add("ANY")
+            kinds(e["pre_common"], "Group-flavors")
+            for b in e["body"]:
+                kinds(b["pre"], "Common")
+            kinds(e["pre_end"], "Common")
+    for n, g in enumerate(a["groups"]):
+        for k, f in enumerate(g["flavors"]):
+            kinds(f["pre"], ("top" if n == 0 else "body") if k == 0 else "between-flavors")
+        for k, b in enumerate(g["body"]):
+            kinds(b["pre"], "after-flavors" if k == 0 else "body")
+    kinds(a["tail"], "end")
+    form = ("mixed" if olds and a["groups"] else "old" if olds else "new" if a["groups"] else "plain")
+    nfl = max([len(g["flavors"]) for g in olds + a["groups"]] or [0])
+    where = sorted(set(t.split("@")[1] for t in tags if "@" in t))
+    return "legacy/%s/flavors<=%d/ign:%s%s" % (form, nfl, "+".join(where) or "none", "/ANY" if "ANY" in tags else "")
+
+
+def leg_line_kinds(a):
+    """finer counters: (line kind, position) pairs present in the file"""
+    out = set()
+
+    def kinds(pre, where):
+        for l in pre:
+            t = l.strip().lower()
+            if not t or t.startswith("#"):
+                out.add("junk@" + where)
+            else:
+                out.add(t.split("=")[0].strip() + "@" + where)
+    if "style" in a:
+        return out
+    for e in a["top"]:
+        kinds(e["pre"], "top")
+        if e["k"] == "old":
+            for k, f in enumerate(e["flavors"]):
+                kinds(f["pre"], "after-Group:" if k == 0 else "between-Group-flavors")
+            kinds(e["pre_common"], "before-Common:")
+            for b in e["body"]:
+                kinds(b["pre"], "after-Common:")
+            kinds(e["pre_end"], "after-Common:")
+    for n, g in enumerate(a["groups"]):
+        for k, f in enumerate(g["flavors"]):
+            kinds(f["pre"], ("top" if n == 0 else "group-body") if k == 0 else "between-flavors")
+        for k, b in enumerate(g["body"]):
+            kinds(b["pre"], "after-flavors" if k == 0 else "group-body")
+    kinds(a["tail"], "end")
+    return out
+
+
+def leg_has_any(a):
+    return "style" not in a and any(f["name"].lower() == "any" for e in a["top"] if e["k"] == "old" for f in e["flavors"])
+
+
+def leg_plain(a):
+    """the same file with every command and key word in the plainest layout (used by the shrinker)"""
+    import copy
+    a = copy.deepcopy(a)
+
+    def pc(c):
+        return canonical_layout([["cmd", c]])[0][1]
+    for e in a["top"]:
+        if e["k"] == "cmd":
+            e["cmd"] = pc(e["cmd"])
+        elif e["k"] == "chain":
+            e["item"] = canonical_layout([e["item"]])[0]
+        else:
+            e["group"], e["common"], e["end"] = "Group:", "Common:", "End:"
+            for f in e["flavors"]:
+                f["spell"] = "Flavor = " + f["name"]
+            for b in e["body"]:
+                b["cmd"] = pc(b["cmd"])
+    for g in a["groups"]:
+        for f in g["flavors"]:
+            f["spell"] = "Flavor = " + f["name"]
+        for b in g["body"]:
+            b["cmd"] = pc(b["cmd"])
+    return a
+
+
+def leg_shrink_candidates(a):
+    import copy
+
+    def slots(x):
+        for e in x["top"]:
+            yield e["pre"]
+            if e["k"] == "old":
+                for f in e["flavors"]:
+                    yield f["pre"]
+                yield e["pre_common"]
+                for b in e["body"]:
+                    yield b["pre"]
+                yield e["pre_end"]
+        for g in x["groups"]:
+            for f in g["flavors"]:
+                yield f["pre"]
+            for b in g["body"]:
+                yield b["pre"]
+        yield x["tail"]
+    # whole elements (their ignorable lines with them)
+    for i in range(len(a["top"])):
+        n = copy.deepcopy(a)
+        del n["top"][i]
+        yield n
+    for i in range(len(a["groups"])):
+        n = copy.deepcopy(a)
+        del n["groups"][i]
+        yield n
+    # every ignorable line at once, then slot by slot, then line by line (a Product= line needs its File= line:
+    # candidates that are no longer in the grammar are refused by leg_in_grammar)
+    if sum(1 for s in slots(a) if s) > 1:
+        n = copy.deepcopy(a)
+        for s in slots(n):
+            del s[:]
+        yield n
+    for k, s in enumerate(slots(a)):
+        if s:
+            n = copy.deepcopy(a)
+            del list(slots(n))[k][:]
+            yield n
+    for k, s in enumerate(slots(a)):
+        for j in range(len(s)):
+            if len(s) > 1:
+                n = copy.deepcopy(a)
+                del list(slots(n))[k][j]
+                yield n
+    for i, e in enumerate(a["top"]):
+        if e["k"] == "chain":
+            for cand in _shrink_candidates([e["item"]]):
+                if len(cand) == 1:
+                    n = copy.deepcopy(a)
+                    n["top"][i]["item"] = cand[0]
+                    yield n
+    # flavors and body commands
+    gs = [("top", i) for i, e in enumerate(a["top"]) if e["k"] == "old"] + [("groups", i) for i in range(len(a["groups"]))]
+    for where, i in gs:
+        g = a[where][i]
+        for j in range(len(g["flavors"])):
+            if len(g["flavors"]) > 1:
+                n = copy.deepcopy(a)
+                fl = n[where][i]["flavors"]
+                if j + 1 < len(fl):
+                    fl[j + 1]["pre"] = fl[j]["pre"] + fl[j + 1]["pre"]
+                del fl[j]
+                yield n
+        for j in range(len(g["body"])):
+            if len(g["body"]) > (1 if where == "groups" else 0):
+                n = copy.deepcopy(a)
+                bd = n[where][i]["body"]
+                if j + 1 < len(bd):
+                    bd[j + 1]["pre"] = bd[j]["pre"] + bd[j + 1]["pre"]
+                del bd[j]
+                yield n
+
+
+def leg_in_grammar(a):
+    """Product= lines only after a File= line; every new-style group has a command"""
+    old = False
+    for l in pr_legacy(a).split("\n"):
+        t = l.strip().lower()
+        if t.startswith("file"):
+            old = True
+        if t.startswith("product") and not old:
+            return False
+    return all(g["body"] for g in a["groups"])
+
+
+# the first form of the legacy stream (kept so that older replay files still run)
+
+def pr_legacy_v1(a):
     lines = []
     for c in a["pre"]:
         lines += c["lay"]["junk"] + [pr_cmd(c)]
@@ -394,8 +778,7 @@ def pr_legacy(a):
     return "\n".join(lines) + "\n"
 
 
-def den_legacy(a, fl, ty):
-    """a group applies exactly when the flavor is one of those it lists"""
+def den_legacy_v1(a, fl, ty):
     out = [den_cmd(c) for c in a["pre"]]
     for g in a["groups"]:
         if fl in g["flavors"]:
@@ -810,6 +1193,44 @@ def shrink_in_child(arg):
         shutil.rmtree(d, ignore_errors=True)
 
 
+def shrink_legacy_in_child(arg):
+    """greedy structural shrink of a failing legacy file, keeping the kind of the failure"""
+    a, envs, kind = arg
+    _impl_setup()
+    d = common.scratch_dir()
+
+    def fails(x, ev):
+        if not leg_in_grammar(x):
+            return False
+        text = pr_legacy(x)
+        impl = _impl_table(text, TOP, ev, d)
+        bad = oracle_table({"stream": "legacy", "ast": x, "envs": ev, "text": text}, impl)
+        return bool(bad) and bad[0][0] == kind
+    try:
+        if not fails(a, envs):
+            return a, envs
+        for fl_ty in envs:
+            if fails(a, [fl_ty]):
+                envs = [fl_ty]
+                break
+        plain = leg_plain(a)
+        if fails(plain, envs):
+            a = plain
+        changed, rounds = True, 0
+        while changed and rounds < 400:         # every candidate is strictly smaller; the bound is a safety net
+            changed = False
+            rounds += 1
+            for cand in leg_shrink_candidates(a):
+                if fails(cand, envs):
+                    a = cand
+                    changed = True
+                    break
+        return a, envs
+    finally:
+        import shutil
+        shutil.rmtree(d, ignore_errors=True)
+
+
 def _shrink_candidates(items):
     import copy
     for i in range(len(items)):
@@ -895,6 +1316,7 @@ def compare(ctx, cases, shrink=True):
         else:
             per[n]["cond"] = model_value(l)
     to_shrink = {}
+    leg_to_shrink = {}
     for n, (c, i) in enumerate(zip(cases, ires)):
         m = per[n]
         if c["stream"] == "cond":
@@ -904,6 +1326,8 @@ def compare(ctx, cases, shrink=True):
                 ctx.disagree(c, m["cond"], i, "VersionParser.eval")
             continue
         for k, (mm, ii) in enumerate(zip(m["env"], i["per_env"])):
+            if c.get("nomodel"):                # Flavor = ANY: the operator =~ is outside the model; oracle only
+                break
             if mm != ii:
                 ctx.disagree({"stream": c["stream"], "text": c["text"], "env": c["envs"][k]}, mm, ii, "Table.actions")
         if c["stream"] == "malformed":
@@ -936,9 +1360,13 @@ def compare(ctx, cases, shrink=True):
                               (c["cmd"], c["arg"], json.dumps(val), json.dumps(obs.get("actions", obs))))
             continue
         if c["stream"] == "legacy":
-            ctx.count(len(c["envs"]), key="legacy/%s/groups=%d" % (c["ast"]["style"], len(c["ast"]["groups"])),
-                      nontrivial=("leg", c["text"]))
-            for kind, env, exp, obs, what in oracle_table(c, i)[:1]:
+            ctx.count(len(c["envs"]), key=leg_shape(c["ast"]), nontrivial=("leg", c["text"]))
+            for t in leg_line_kinds(c["ast"]):
+                ctx.bump("legacy-line/" + t)
+            bad = oracle_table(c, i)
+            if bad and shrink and ("legacy", bad[0][0]) not in leg_to_shrink and "style" not in c["ast"]:
+                leg_to_shrink[("legacy", bad[0][0])] = (c, bad)
+            for kind, env, exp, obs, what in bad[:1]:
                 ctx.fail("legacy-" + kind, {"stream": "legacy", "text": c["text"], "envs": [env], "ast": c["ast"]},
                          expected=exp, observed=obs, what=what)
             continue
@@ -966,6 +1394,18 @@ def compare(ctx, cases, shrink=True):
         if rr2[0] == "ok":
             for kind, env, exp, obs, what in oracle_table(small, rr2[1][0])[:1]:
                 ctx.fail(kind, {"stream": "table", "text": small["text"], "envs": [env], "ast": items},
+                         expected=exp, observed=obs, what="(shrunk) " + what)
+    for cls, (c, bad) in leg_to_shrink.items():
+        rr = common.in_child(shrink_legacy_in_child, (c["ast"], [b[1] for b in bad][:2], bad[0][0]), timeout=300,
+                             environ=common.scrubbed_environ())
+        if rr[0] != "ok":
+            continue
+        a, envs = rr[1]
+        small = {"stream": "legacy", "text": pr_legacy(a), "envs": envs, "ast": a}
+        rr2 = common.in_child(impl_batch, [small], environ=common.scrubbed_environ())
+        if rr2[0] == "ok":
+            for kind, env, exp, obs, what in oracle_table(small, rr2[1][0])[:1]:
+                ctx.fail("legacy-" + kind, {"stream": "legacy", "text": small["text"], "envs": [env], "ast": a},
                          expected=exp, observed=obs, what="(shrunk) " + what)
     return ires
 
@@ -1031,8 +1471,15 @@ def setup(ctx):
                 "of command names and of FLAVOR/TYPE, quoting of values and literals, separators, optional semicolon), "
                 "each evaluated for every mentioned flavor x type plus one unmentioned flavor and type; plus a small-scope sweep "
                 "in plain layout (chains of 1-3 branches, with and without else, whose first condition ranges over every "
-                "condition with <= 2 operators over three atoms, all parenthesisations); plus legacy files (new-style Flavor= groups and old-style "
-                "Group:/Flavor=/Common:/End: blocks with 1-3 flavors each, oracle: the body applies iff the flavor is listed); "
+                "condition with <= 2 operators over three atoms, all parenthesisations); plus legacy files of the whole old grammar "
+                "(file := ign* top* newgroup* ign*; top := ign* (command | if-chain | Group: (ign* Flavor=F)+ ign* Common: "
+                "(ign* command)* ign* End:); newgroup := (ign* Flavor=F)+ (ign* command)+; ign := blank/comment | Action = setup | "
+                "Qualifiers = \"\" | File = Table | Product = P after a File= line; key words in any letter case, blanks around "
+                "=, trailing comments; 1-3 of 6 flavor names per group, rarely Flavor = ANY in an old group; a quarter of the files "
+                "in the customary layout: Qualifiers after every Flavor=, Action = setup before the body), every flavor "
+                "listed and one that is not, with and without a type; oracle: commands and chains as in any table, the body of a "
+                "group iff the flavor is listed (old form: or ANY is), ignorable lines mean nothing; histogram keys "
+                "legacy/<form>/flavors<=n/ign:<slots> and legacy-line/<line kind>@<slot>; failing files are shrunk; "
                 "plus a malformed stream (accept/raise, "
                 "actions and parsed block structure) and a condition token-soup stream (python value of eval); "
                 "values include the double quote, written backslash-quote: at both ends of a bare word, at one end, in the "
@@ -1057,8 +1504,12 @@ def setup(ctx):
         "whole-argument string)",
         "unquoted arguments contain no blank or comma; quoted arguments are non-empty",
         "flavor names start with a letter and are not True/False/EOF/or/and/not/flavor/type; condition literals likewise",
-        "operands ${VAR}, the operators =~ !~ < <= > >= (hence the old-style wildcard Flavor=ANY) and expandEupsVariables are "
-        "not modelled",
+        "operands ${VAR}, the operators =~ !~ < <= > >= (hence the old-style wildcard Flavor=ANY: oracle only, no model "
+        "comparison) and expandEupsVariables are not modelled",
+        "legacy files: a new-style group has at least one command; if-chains and Group: blocks stand before the first new-style "
+        "group (blocks do not nest); Qualifiers = with a non-empty text, Action = other than setup, File = other than Table, "
+        "Product = before any File= and the old synonyms ${PROD_DIR}... are compared with the model in the malformed stream, "
+        "not claimed by the oracle",
         "the table is read with a topProduct (envUnset(PRODUCT_DIR) names its directory variable)",
         "theorems cover the operator spellings || and &&; the word forms or / and / not / ! are modelled and compared "
         "(malformed and condition streams) but not part of the proved grammar"]
@@ -1075,10 +1526,12 @@ def run(ctx):
         items = g_items(ctx.rng, empties=(k % 12 == 0))
         cases.append({"stream": "table", "ast": items, "text": pr_items(items), "envs": envs_for(ctx.rng, items)})
     cases += list(exhaustive_small(ctx.size(600, None)))
-    for _ in range(ctx.size(300, 6000)):
+    for _ in range(ctx.size(700, 12000)):
         a = g_legacy(ctx.rng)
-        cases.append({"stream": "legacy", "ast": a, "text": pr_legacy(a),
-                      "envs": [[f, t] for f in FLAVORS + [OTHER_FLAVOR] for t in ([], ["build"])][::2]})
+        c = {"stream": "legacy", "ast": a, "text": pr_legacy(a), "envs": leg_envs(a)}
+        if leg_has_any(a):
+            c["nomodel"] = True
+        cases.append(c)
     for _ in range(ctx.size(400, 20000)):
         cases.append(g_malformed(ctx.rng))
     for _ in range(ctx.size(1500, 60000)):
